@@ -59,7 +59,7 @@ def hh_walk(ctx, k, pre=None, tag=""):
             if pre:
                 pre(w, st)
         w = Walker(F.model, k, consts=F.consts_for(k), effects=F.effects, summaries=SUMMARIES,
-                   cell_axioms=keylen_axioms(F, k), param_facts=pf)
+                   cell_axioms=keylen_axioms(F, k), param_facts=pf, no_inline=frozenset(F.units()))
         w.run()
         ctx.analysed_funcs.add(k.key)
         return w
